@@ -15,6 +15,7 @@ from urllib import parse
 import gevent
 import gevent.event
 
+from . import vtimer
 from .kernel import Digest, HarnessError, Violation
 from .wiki import World
 
@@ -35,6 +36,16 @@ class SimTime:
 
     def sleep(self, seconds):
         self._sim.park("sleep", max(0.0, float(seconds)), None)
+
+
+class _Fire:
+    """Adapter: a heap entry whose release calls a function instead of setting a result."""
+
+    def __init__(self, fn):
+        self.fn = fn
+
+    def set(self, result):
+        self.fn()
 
 
 class DummyHttpClient:
@@ -96,6 +107,15 @@ class FetchSim:
         if isinstance(out, BaseException):
             raise out
         return out
+
+    def schedule_timer(self, after, fire):
+        """gevent timers created by the SUT (gevent.sleep, Timeout, wait(timeout)) live on the
+        same virtual-time heap as the parked requests."""
+        self.seq += 1
+        heapq.heappush(self.heap, (self.now + after, self.seq, "gevent-timer", None, _Fire(fire), None))
+
+    def count_timer_fired(self):
+        self.count("gevent-timer-fired")
 
     def release_next(self):
         """Release the earliest parked item and, with it, everything due within the
@@ -229,6 +249,7 @@ def install(sim):
     for k, v in sim.config.get("conf", {}).items():
         conf.config["fetch"][k] = str(v)
     hub = gevent.get_hub()
+    sim._real_loop = vtimer.install(sim)
     sim._saved_handle_error = hub.__dict__.get("handle_error")
 
     def handle_error(context, etype, value, tb):
@@ -249,6 +270,7 @@ def uninstall(sim):
     fetch.time = _INSTALLED["fetch_time"]
     sapi.random = _INSTALLED["sapi_random"]
     fetch.FsOutput = _INSTALLED["FsOutput"]
+    vtimer.uninstall(sim._real_loop)
     hub = gevent.get_hub()
     if sim._saved_handle_error is None:
         hub.__dict__.pop("handle_error", None)
